@@ -62,6 +62,29 @@ fn world_numbered(chain: &refmodel::chain::ChainBuilder, assign: &[usize], stale
     for h in hs {
         w.add_block(assign[h] as u64 * stride, chain.first_height + h as u64, &chain.blocks[h]);
     }
+    // Bitcoin Core's per-file records ('f' + file number): nBlocks, nSize, nUndoSize, nHeightFirst, nHeightLast, nTimeFirst,
+    // nTimeLast. nHeightLast counts every block ever stored in the file - with a stale block on top it is one above the file's
+    // highest active block. The parser has no use for these records; they are part of every real index.
+    {
+        use refmodel::ser::core_varint;
+        let files: BTreeSet<usize> = assign.iter().copied().collect();
+        for f in files {
+            let hs: Vec<usize> = (0..n).filter(|h| assign[*h] == f).collect();
+            let (first, last) = (*hs.first().unwrap() as u64, *hs.last().unwrap() as u64 + if stale_tails { 1 } else { 0 });
+            let fno = f as u64 * stride;
+            if fno > u32::MAX as u64 {
+                continue;
+            }
+            let mut key = vec![b'f'];
+            key.extend_from_slice(&(fno as u32).to_le_bytes());
+            let mut val = Vec::new();
+            for x in [hs.len() as u64 + stale_tails as u64, 100_000, 5_000, chain.first_height + first, chain.first_height + last, 1_600_000_000, 1_600_009_999] {
+                val.extend(core_varint(x));
+            }
+            w.index_ops.push(refmodel::world::IndexOp::Put(key, val));
+        }
+        w.index_ops.push(refmodel::world::IndexOp::Put(b"l".to_vec(), (assign.iter().max().copied().unwrap_or(0) as u32).to_le_bytes().to_vec()));
+    }
     if stale_tails {
         let files: BTreeSet<usize> = assign.iter().copied().collect();
         for f in files {
